@@ -46,7 +46,7 @@ pub fn meta(id: &str) -> PropMeta {
         rule: "",
         explanation: "",
         assumptions: COMMON_ASSUMPTIONS.to_vec(),
-        quick_cap_s: 45.0,
+        quick_cap_s: 120.0,
         thorough_cap_s: 600.0,
         quick_bound: "",
         thorough_bound: "",
